@@ -18,7 +18,7 @@ use serde::{Deserialize, Serialize};
 
 use super::c02;
 use crate::{
-    h1engine::{BodyKind, ConnEnd, KaCfg, Outcome, ReadProg, Scenario},
+    h1engine::{BodyKind, ConnEnd, Outcome, ReadProg, Scenario},
     httpwire,
     runner::{self, explore, Report, RunCfg, Verdict},
     simnet::{PeerOp, WSched},
@@ -34,6 +34,9 @@ pub enum Fault {
     ResetAt(u16),
     /// everything is sent; the peer resets `ms` later without reading further
     ResetAfter(u16),
+    /// everything is sent; the peer reads all responses, then half-closes `ms` later (a client
+    /// that closes when it has its answers — possibly while the server lingers)
+    EofAfterResponses(u16),
 }
 
 #[derive(Debug, Clone, Serialize, Deserialize)]
@@ -41,6 +44,9 @@ pub struct Case {
     pub base: c02::Case,
     pub w: WSched,
     pub fault: Fault,
+    /// client_disconnect_timeout (0 = disabled)
+    #[serde(default)]
+    pub disc_ms: u32,
 }
 
 fn wsched() -> impl Strategy<Value = WSched> {
@@ -90,10 +96,15 @@ fn case_strategy(faults: bool) -> impl Strategy<Value = Case> {
             ]
             .boxed()
         } else {
-            Just(Fault::None).boxed()
+            prop_oneof![
+                3 => Just(Fault::None),
+                1 => prop_oneof![Just(0u16), 1u16..100, 100u16..1500].prop_map(Fault::EofAfterResponses),
+            ]
+            .boxed()
         },
+        prop_oneof![2 => Just(0u32), 1 => Just(300u32), 1 => Just(1000u32)],
     )
-        .prop_map(|(base, w, fault)| Case { base, w, fault })
+        .prop_map(|(base, w, fault, disc_ms)| Case { base, w, fault, disc_ms })
 }
 
 /// upper bound (virtual ms) on the handler-side delays of the requests that were dispatched
@@ -116,7 +127,7 @@ fn program_delay_ms(case: &c02::Case, out: &Outcome) -> u64 {
 fn apply_fault(sc: &mut Scenario, fault: &Fault) -> usize {
     let len = sc.input.len();
     match fault {
-        Fault::None => len,
+        Fault::None | Fault::EofAfterResponses(_) => len,
         Fault::ResetAfter(ms) => {
             // replace the trailing "wait for close, eof" / "eof" by a reset
             while matches!(sc.peer_ops.last(), Some(PeerOp::Eof | PeerOp::WaitClose(_))) {
@@ -164,14 +175,30 @@ pub fn run_case(cfg: &RunCfg, case: &Case) -> Verdict {
     let strict = cfg.strict;
     let halfclose_listed = !strict && cfg.kf.active("C01", "half-close-discards-buffered-body");
 
-    if case.fault == Fault::None {
+    if matches!(case.fault, Fault::None | Fault::EofAfterResponses(_)) {
         // ---- schedules: the full C02 oracle on the adversarial socket, plus progress
+        let disc_ms = case.disc_ms;
+        let fault = case.fault.clone();
+        let n = base.reqs.len();
+        let is_head: Vec<bool> = base.reqs.iter().map(|r| r.is_head()).collect();
         let (mut v, out) = c02::run_case_ext(
             cfg,
             base,
             strict,
             &|sc: &mut Scenario| {
                 sc.wsched = Some(w.clone());
+                sc.cfg.disc_timeout_ms = disc_ms;
+                if let Fault::EofAfterResponses(ms) = fault {
+                    while matches!(sc.peer_ops.last(), Some(PeerOp::Eof | PeerOp::WaitClose(_))) {
+                        sc.peer_ops.pop();
+                    }
+                    sc.is_head = is_head.clone();
+                    sc.peer_ops.push(PeerOp::WaitResps(n, 20_000));
+                    if ms > 0 {
+                        sc.peer_ops.push(PeerOp::Sleep(ms as u32));
+                    }
+                    sc.peer_ops.push(PeerOp::Eof);
+                }
             },
             false,
         );
@@ -184,7 +211,7 @@ pub fn run_case(cfg: &RunCfg, case: &Case) -> Verdict {
         if v.is_fail() {
             return v;
         }
-        return progress_checks(v, base, &out, true);
+        return progress_checks(v, base, &out, true, case.disc_ms);
     }
 
     // ---- faults: truncated stream + half-close / reset
@@ -195,6 +222,7 @@ pub fn run_case(cfg: &RunCfg, case: &Case) -> Verdict {
     }
     let (mut sc, _starts) = c02::build_scenario(base, None, halfclose_listed);
     sc.wsched = Some(w);
+    sc.cfg.disc_timeout_ms = case.disc_ms;
     let rendered = httpwire::render_pipeline(&base.reqs);
     let k = apply_fault(&mut sc, &case.fault);
     let complete_reqs = rendered.reqs.iter().take_while(|r| r.end <= k).count();
@@ -209,7 +237,7 @@ pub fn run_case(cfg: &RunCfg, case: &Case) -> Verdict {
     if let ConnEnd::Panicked(p) = &out.end {
         return v.fail_with(format!("panic in connection task: {p}"));
     }
-    v = progress_checks(v, base, &out, false);
+    v = progress_checks(v, base, &out, false, case.disc_ms);
     if v.is_fail() {
         return v;
     }
@@ -308,12 +336,14 @@ fn classify(v: Verdict, case: &Case, out: &Outcome) -> Verdict {
         .class_if(base.progs.iter().any(|p| matches!(p.resp.body.kind, BodyKind::Echo)), "echo-proxy")
         .class_if(base.progs.iter().any(|p| p.resp.body.chunks.iter().any(|c| c.pending > 0)), "body-self-wake-pending")
         .class_if(matches!(case.fault, Fault::EofAt(_)), "half-close-mid-stream")
+        .class_if(matches!(case.fault, Fault::EofAfterResponses(_)), "half-close-after-responses")
+        .class_if(case.disc_ms > 0, "disconnect-timeout-set")
         .class_if(matches!(case.fault, Fault::ResetAt(_) | Fault::ResetAfter(_)), "reset")
         .class_if(case.w.is_benign(), "benign-socket")
 }
 
 /// Termination, timeliness, nothing after shutdown.
-fn progress_checks(v: Verdict, base: &c02::Case, out: &Outcome, eof_script: bool) -> Verdict {
+fn progress_checks(v: Verdict, base: &c02::Case, out: &Outcome, eof_script: bool, disc_ms: u32) -> Verdict {
     if out.write_after_shutdown > 0 {
         return v.fail_with(format!(
             "{} bytes were written after poll_shutdown had returned Ready",
@@ -348,12 +378,11 @@ fn progress_checks(v: Verdict, base: &c02::Case, out: &Outcome, eof_script: bool
     }
     // completion: once the peer has half-closed and everything is written the task must end
     if eof_script {
-        let ka_ms = match base.ka {
-            KaCfg::Timeout(ms) => ms as u64 + 600,
-            _ => 0,
-        };
+        // (keep-alive expiry can only end the connection earlier than the peer's half-close does)
         if let Some(pd) = out.peer_done_at {
-            let limit = pd.max(bound) + ka_ms + 200;
+            // (with a disconnect timeout the server may linger for that long after a response to
+            // an unread body when the peer's half-close was seen before lingering started)
+            let limit = pd.max(bound) + disc_ms as u64 + if disc_ms > 0 { 500 } else { 0 } + 200;
             if out.end_at > limit {
                 return v.fail_with(format!(
                     "connection task completed at {} ms, long after the peer finished (at {pd} ms) and all work was done (bound {bound} ms)",
